@@ -510,7 +510,7 @@ def savebase_case(ctx, objs, k):
     sb = ctx.scratch.dir("sb", cid)
     base = os.path.join(sb, "bundles")
     os.makedirs(base)
-    n = 16
+    n = 32
     for j in range(n):
         shutil.copy(objs[f"so{j % 3 + 1}"], os.path.join(sb, f"a{j}.o"))
     rd, wr = os.pipe()
@@ -623,7 +623,7 @@ def main(ctx):
     n = ctx.pick(70, 900)
     nc = ctx.pick(10, 100)
     jobs = [("p", k) for k in range(len(PINNED))] + [("c", i) for i in range(n)] + [("x", i) for i in range(nc)]
-    jobs += [("d", k) for k in range(ctx.pick(5, 25))] + [("D", k) for k in range(5)] + [("S", k) for k in range(ctx.pick(6, 40))]
+    jobs += [("d", k) for k in range(ctx.pick(5, 25))] + [("D", k) for k in range(5)] + [("S", k) for k in range(ctx.pick(12, 60))]
     if ctx.replay is not None:
         c = str(ctx.replay.get("case"))
         jobs = ([("p", int(c[6:]))] if c.startswith("pinned") else [("x", int(c[4:]))] if c.startswith("conc") else
